@@ -130,6 +130,24 @@ func near(a, b uint8, tol int) bool {
 }
 
 func checkCase(c Case, r *vf.R) error {
+	err := checkCase1(c, r)
+	if err != nil {
+		// strokes and the Positive/Negative rules go through Settle: a wrong region for zero-area spikes or
+		// coincident contours is finding F02a of C02 (the panics of the same class are handled below)
+		deg := false
+		for _, d := range c.Draws {
+			if (d.Rule >= 2 || d.Stroke > 0) && degenerate(d.Path) {
+				deg = true
+			}
+		}
+		if r.Excluded("F02a", deg) {
+			return nil
+		}
+	}
+	return err
+}
+
+func checkCase1(c Case, r *vf.R) error {
 	W, H := c.Size[0], c.Size[1]
 	cv := canvas.New(W, H)
 	ctx := canvas.NewContext(cv)
